@@ -1,4 +1,4 @@
-\* exhaustive: chains of 1..3 steps, 1..2 requested objects, 8 hook outcomes per step (<= 1 count-changing step), 2 rule-declaration variants: ~2.8 k states, 1136 cases
+\* exhaustive: chains of 1..3 steps, 1..2 requested objects, 8 hook outcomes per step (<= 1 count-changing step), 2 rule-declaration variants, 2 hook layouts: 8376 states, 3540 cases
 SPECIFICATION Spec
 CONSTANTS
   MaxLen = 3
